@@ -58,7 +58,9 @@ BOUNDS = {
              "other content, shape and pixel scale -> overwrite=True on an absent path, for EVERY writer (Array2D, Kernel2D, Mask2D, Array1D, Mask1D, "
              "Imaging) crossed with EVERY path kind (absolute with three missing directory levels, absolute in an existing directory, relative path with "
              "missing directories, bare file name in the current directory); contents and both pixel scales symbolic (masks: old 1x3 / new 2x1 bits "
-             "forked; Imaging 3x3 -> 3x4). "
+             "forked; Imaging 3x3 -> 3x4); old and new (y, x) scales independent (iso/aniso in every combination); after the overwrite "
+             "the non-structural header cards and the number of HDUs must equal those of a fresh write of the new object; a 3-HDU file with foreign "
+             "cards overwritten by a structure; a structure's file overwritten by a plain ndarray (no geometry card may survive). "
              "Derived arrays: masked Array2D (all masks for H*W <= 6, mask family for 3x3, 3x4, 4x3, 2x4, 4x2) and Array1D (lengths 1..5, all masks) in BOTH "
              "storage modes (store_native F/T), fresh and after x + c, x * c, c - x with c symbolic, written on BOTH routes (file and HDU). "
              "Multi-extension files: 3 HDUs written through hdu_for_output, every hdu index 0..2 read back (Array2D, Kernel2D, Mask2D, Array1D; shapes "
@@ -78,14 +80,16 @@ STUBS = [
     "astropy.io.fits inside array_2d_util, array_1d_util, uniform_2d, uniform_1d, kernel_2d, mask_2d, mask_1d (symbolic runs only): in-memory "
     "Header / PrimaryHDU / ImageHDU / HDUList / open / writeto that store and return the data array and the header cards unchanged (contract: astropy "
     "round-trips float64 data and float header cards; writeto raises OSError when the path exists and FileNotFoundError when its directory does not); "
-    "hdu.data is an ndarray whose astype('float') keeps proxy entries",
+    "hdu.data is an ndarray whose astype('float') keeps proxy entries; open(mode='update') edits the stored file in place (all cards not "
+    "overwritten and all further HDUs are kept, Header.update sets / appends cards, flush / close / leaving the with-block write back)",
     "os.path.exists / os.makedirs / os.remove inside array_2d_util and array_1d_util (symbolic runs only): in-memory directory/file sets with POSIX "
     "behaviour (exists('') is False, makedirs('') raises FileNotFoundError, makedirs creates all ancestors, remove deletes the file)",
     "type(x) inside geometry_util / mask_1d: a symbolic real counts as a Python float (header values returned by astropy are Python floats)",
 ]
 ASSUMPTIONS = [
     "mask bits are explored by forking (one path per mask); pixel values, kernel values and pixel scales are solver variables (scales > 0)",
-    "pixel-scale obligations carry the library's own 1e-8 isotropy tolerance (Mask.pixel_scale treats scales closer than 1e-8 as equal)",
+    "pixel-scale obligations carry the library's own 1e-8 isotropy tolerance (Mask.pixel_scale_header treats scales closer than 1e-8 as equal); "
+    "decision margin: scale pairs with 5e-9 < |sy - sx| < 2e-8 (rounding distance of that test) are outside the claim",
 ]
 EXPLORER_OPTS = {"max_paths": 140000, "timeout_ms": 20000}
 BUDGET_S = {"quick": 600, "thorough": 2300}
@@ -163,6 +167,12 @@ class MemHeader:
     def keys(self):
         return [k for k, _ in self.cards]
 
+    def update(self, other=None, **kw):
+        """astropy semantics: cards of `other` are set (replaced or appended), all other cards are kept"""
+        cards = other.cards if isinstance(other, MemHeader) else list(dict(other or {}).items())
+        for k, v in list(cards) + list(kw.items()):
+            self[k] = v
+
     def copy(self):
         return MemHeader(self.cards)
 
@@ -201,11 +211,16 @@ class VFS:
             raise OSError("File %s already exists. If you mean to replace it then use the argument \"overwrite=True\"." % p)
         self.files[p] = [h._snapshot() for h in hdus]
 
-    def read(self, p):
+    def read(self, p, mode="readonly"):
         p = str(p)
         if p not in self.files:
             raise FileNotFoundError(2, "No such file or directory", p)
-        return MemHDUList([h._snapshot() for h in self.files[p]])
+        hl = MemHDUList([h._snapshot() for h in self.files[p]])
+        if mode == "update":        # edits are written back to the same file by flush() / close()
+            hl._update_path = p
+        elif mode not in ("readonly", "denywrite", "copyonwrite"):
+            raise ValueError("Mode %r not recognized" % (mode,))
+        return hl
 
 
 _VFS = [VFS()]
@@ -213,8 +228,16 @@ _VFS = [VFS()]
 
 class MemHDU:
     def __init__(self, data=None, header=None, **kw):
-        self.data = _as_data(data)
+        self.data = data
         self.header = header.copy() if header is not None else MemHeader()
+
+    @property
+    def data(self):
+        return self._data
+
+    @data.setter
+    def data(self, value):
+        self._data = _as_data(value)
 
     def _snapshot(self):
         return type(self)(None if self.data is None else self.data.copy(), self.header)
@@ -232,11 +255,25 @@ class MemImageHDU(MemHDU):
 
 
 class MemHDUList(list):
+    _update_path = None
+
     def writeto(self, name, overwrite=False, **kw):
         _VFS[0].write(name, list(self), overwrite=overwrite)
 
-    def close(self):
-        pass
+    def flush(self, **kw):
+        if self._update_path is not None:
+            _VFS[0].files[self._update_path] = [h._snapshot() for h in self]
+
+    def close(self, **kw):
+        self.flush()
+        self._update_path = None
+
+    def __enter__(self):
+        return self
+
+    def __exit__(self, *a):
+        self.close()
+        return False
 
 
 class _MemFits:
@@ -246,8 +283,8 @@ class _MemFits:
     HDUList = MemHDUList
 
     @staticmethod
-    def open(name, **kw):
-        return _VFS[0].read(name)
+    def open(name, mode="readonly", **kw):
+        return _VFS[0].read(name, mode=mode)
 
 
 class FitsFacade:
@@ -623,7 +660,15 @@ def body_derived(inp, H, W, flip, dims=2):
 FS_WRITERS = ("array2d", "kernel2d", "mask2d", "array1d", "mask1d", "imaging")
 FS_KINDS = ("nested", "absdir", "reldir", "bare")
 FS_STEPS = ("first.write", "first.read", "first.scale", "refused.write", "refused.read", "refused.scale",
-            "overwrite.write", "overwrite.read", "overwrite.scale", "overwrite_absent.write", "overwrite_absent.read")
+            "overwrite.write", "overwrite.read", "overwrite.scale", "overwrite_absent.write", "overwrite_absent.read",
+            "overwrite.cards", "overwrite.n_hdus", "multi.write", "multi.read", "multi.scale", "multi.cards", "multi.n_hdus",
+            "plain.write", "plain.fresh_write", "plain.read", "plain.scale", "plain.cards")
+
+
+def _plain(content):
+    """plain float ndarray without geometry (mask bits become 0./1.)"""
+    a = np.asarray(content)
+    return a.astype(float) if a.dtype != object else a.copy()
 
 
 def _fs_paths(env, kind, names):
@@ -642,8 +687,8 @@ def body_fs(inp, H, W, H2, W2, flip, writer, kind):
     """history absent -> write -> refused write -> overwrite with other content, shape and pixel scale -> overwrite of an absent
     path, for ONE writer and ONE path kind (the case list crosses all writers with all path kinds)"""
     import autoarray as aa
-    from autoarray.structures.arrays import array_2d_util
-    s_old, s_new = _scal(inp["s_old"]), _scal(inp["s_new"])
+    from autoarray.structures.arrays import array_2d_util, array_1d_util
+    s_old, s_new = [_scal(x) for x in inp["s_old"]], [_scal(x) for x in inp["s_new"]]     # (y, x) scales, or (x,) in 1D
     env = Env(flip)
     A, E = {}, {}
     try:
@@ -657,7 +702,7 @@ def body_fs(inp, H, W, H2, W2, flip, writer, kind):
         dims = 1 if writer in ("array1d", "mask1d") else 2
 
         def sc(s_):
-            return (s_,) if dims == 1 else (s_, s_)
+            return tuple(s_)
 
         names = ["data.fits", "noise.fits", "psf.fits"] if writer == "imaging" else ["x.fits"]
         first, fresh = _fs_paths(env, kind, names)
@@ -710,19 +755,62 @@ def body_fs(inp, H, W, H2, W2, flip, writer, kind):
             return (_get(back, lambda b: [np.asarray(b.data.native.array), np.asarray(b.noise_map.native.array), np.asarray(b.psf.native.array)]),
                     _get(back, lambda b: _hdr_scales(b.data.header.header_sci_obj)))
 
+        def cards(p):
+            # non-structural header keywords (astropy adds SIMPLE / BITPIX / NAXISn / EXTEND itself from the data)
+            def f_():
+                return ",".join(str(k) for k in env.raw(p)[1].keys()
+                                if not (str(k) in ("SIMPLE", "BITPIX", "EXTEND", "PCOUNT", "GCOUNT", "XTENSION") or str(k).startswith("NAXIS")))
+            return hx.attempt(f_)
+
+        def n_hdus(p):
+            def f_():
+                hl = env.fits().open(p)
+                try:
+                    return len(hl)
+                finally:
+                    hl.close()
+            return hx.attempt(f_)
+
         def history():
             o_old, o_new = make(old, s_old, "a"), make(new, s_new, "b")
             A["first.write"], E["first.write"] = write(o_old, first, False), None
             A["first.read"], A["first.scale"] = read(first, s_old)
-            E["first.read"], E["first.scale"] = content_of(old, "a"), list(sc(s_old))
+            E["first.read"], E["first.scale"] = content_of(old, "a"), list(s_old)
             A["refused.write"], E["refused.write"] = write(o_new, first, False), hx.Raised("OSError")
             A["refused.read"], A["refused.scale"] = read(first, s_old)
-            E["refused.read"], E["refused.scale"] = content_of(old, "a"), list(sc(s_old))
+            E["refused.read"], E["refused.scale"] = content_of(old, "a"), list(s_old)
             A["overwrite.write"], E["overwrite.write"] = write(o_new, first, True), None
             A["overwrite.read"], A["overwrite.scale"] = read(first, s_new)
-            E["overwrite.read"], E["overwrite.scale"] = content_of(new, "b"), list(sc(s_new))
+            E["overwrite.read"], E["overwrite.scale"] = content_of(new, "b"), list(s_new)
             A["overwrite_absent.write"], E["overwrite_absent.write"] = write(o_new, fresh, True), None
             A["overwrite_absent.read"], E["overwrite_absent.read"] = read(fresh, s_new)[0], content_of(new, "b")
+            if writer == "imaging":
+                return
+            # "the new content fully replaces the old": the overwritten file is what a fresh write of the new object alone gives
+            # (same header cards, one HDU), whatever the path held before
+            A["overwrite.cards"], E["overwrite.cards"] = cards(first[0]), cards(fresh[0])
+            A["overwrite.n_hdus"], E["overwrite.n_hdus"] = n_hdus(first[0]), 1
+            f = env.fits()
+            pm = env.path("multi_ext.fits")
+            h0 = f.Header()
+            for key, val in (("PIXSCALEY", s_old[0]), ("PIXSCALEX", s_old[-1]), ("OLDCARD", 7.0)):
+                h0.append((key, val, ""))
+            f.HDUList([f.PrimaryHDU(_plain(old), h0), f.ImageHDU(_plain(old)), f.ImageHDU(_plain(old))]).writeto(pm)
+            A["multi.write"], E["multi.write"] = write(o_new, [pm], True), None
+            A["multi.read"], A["multi.scale"] = read([pm], s_new)
+            E["multi.read"], E["multi.scale"] = content_of(new, "b"), list(s_new)
+            A["multi.cards"], E["multi.cards"] = cards(pm), cards(fresh[0])
+            A["multi.n_hdus"], E["multi.n_hdus"] = n_hdus(pm), 1
+            # a plain ndarray without geometry overwrites a file written from a structure: no geometry card may survive
+            util = array_2d_util.numpy_array_2d_to_fits if dims == 2 else array_1d_util.numpy_array_1d_to_fits
+            via = array_2d_util.numpy_array_2d_via_fits_from if dims == 2 else array_1d_util.numpy_array_1d_via_fits_from
+            kw = "array_2d" if dims == 2 else "array_1d"
+            pf = fresh[0].replace("fresh_", "freshplain_")
+            A["plain.write"], E["plain.write"] = hx.attempt(lambda: util(**{kw: _plain(old)}, file_path=first[0], overwrite=True)), None
+            A["plain.fresh_write"], E["plain.fresh_write"] = hx.attempt(lambda: util(**{kw: _plain(old)}, file_path=pf, overwrite=True)), None
+            A["plain.read"], E["plain.read"] = hx.attempt(lambda: np.asarray(via(file_path=first[0], hdu=0))), _plain(old)
+            A["plain.scale"], E["plain.scale"] = hx.attempt(lambda: _hdr_scales(array_2d_util.header_obj_from(file_path=first[0], hdu=0), dims)), "no pixel scale card"
+            A["plain.cards"], E["plain.cards"] = cards(first[0]), cards(pf)
 
         env.in_cwd(history)
     finally:
@@ -852,6 +940,13 @@ def _family_mask(name, H, W):
     return m
 
 
+def _margin(ctx, sy, sx):
+    """decision margin for the library's isotropy test |sy - sx| > 1e-8 (exact reals and float64 may disagree only at the boundary)"""
+    d = sy.t - sx.t
+    ad = z3.If(d >= 0, d, -d)
+    ctx.assume(z3.Or(ad <= V.rval(5e-9), ad >= V.rval(2e-8)))
+
+
 def case_2d(ctx, H, W, flip, masks="all", full=True):
     if masks == "all":
         mb = V.bool_array("m", (H, W))
@@ -862,6 +957,7 @@ def case_2d(ctx, H, W, flip, masks="all", full=True):
     ctx.set_case(mask=mask.tolist())
     sy, sx = V.real("sy"), V.real("sx")
     ctx.assume(z3.And(sy.t > 0, sx.t > 0))
+    _margin(ctx, sy, sx)
     inputs = {"mask": mask, "v": V.real_array("v", (H, W)), "k": V.real_array("k", (H, W)), "scales": [sy, sx]}
     known = {}
     if "aniso-pixel-scale" in _known_ids():
@@ -914,8 +1010,14 @@ def case_derived(ctx, H, W, flip, dims=2, masks="all"):
 
 
 def case_fs(ctx, H, W, H2, W2, flip, writer, kind):
-    s_old, s_new = V.real("s_old"), V.real("s_new")
-    ctx.assume(z3.And(s_old.t > 0, s_new.t > 0))
+    nsc = 1 if writer in ("array1d", "mask1d") else 2       # old and new (y, x) scales independent: iso -> aniso, aniso -> iso, ...
+    s_old, s_new = [V.real("so%d" % i) for i in range(nsc)], [V.real("sn%d" % i) for i in range(nsc)]
+    ctx.assume(z3.And(*[x.t > 0 for x in s_old + s_new]))
+    if nsc == 2:
+        _margin(ctx, *s_old)
+        _margin(ctx, *s_new)
+    if writer == "imaging":
+        ctx.assume(z3.And(s_old[0].t == s_old[1].t, s_new[0].t == s_new[1].t))
     inputs = {"s_old": s_old, "s_new": s_new}
     if writer in ("mask2d", "mask1d"):
         inputs["m_old"] = ctx.concrete_bools(V.bool_array("mo", (H, W)))
